@@ -296,6 +296,7 @@ def applyFn (kind : String) (args : List V) (kwargs : List (String × V)) : Exce
   | "mk_list", [] => .ok (.list [])
   | "mk_zero", [] => .ok (.int 0)
   | "raise_ve", _ => .error (e "ValueError")
+  | "raise_multiline", _ => .error (e "ValueError")
   | "raise_glom", _ => .error (e "GlomError")
   | "id", [v] => .ok v
   | "const7", [_] => .ok (.int 7)
